@@ -124,6 +124,20 @@ fn run(args: &[String]) -> String {
             let r = gm_sm2::p256_ecc::g_mul(&k);
             if r.is_zero() { "ok:inf".into() } else { format!("ok:{}", hex::encode(r.to_byte_be(false))) }
         }
+        "sm9_point_mul" | "sm9_g_mul" => {
+            // k (32 bytes) -> [k]P1 via Point::point_mul on P1 / the fixed-base Point::g_mul, "inf" for infinity
+            let k = gm_sm9::u256::u256_from_be_bytes(&h(&args[1]));
+            let r = if op == "sm9_g_mul" {
+                gm_sm9::points::Point::g_mul(&k)
+            } else {
+                let p1 = gm_sm9::points::Point::from_hex([
+                    "93DE051D62BF718FF5ED0704487D01D6E1E4086909DC3280E8C4E4817C66DDDD",
+                    "21FE8DDA4F21E607631065125C395BBC1C1C00CBFA6024350C464CD70A3EA616",
+                ]);
+                p1.point_mul(&k)
+            };
+            if r.is_zero() { "ok:inf".into() } else { format!("ok:{}", hex::encode(r.to_bytes_be())) }
+        }
         _ => format!("err:unknown op {}", op),
     }
 }
